@@ -62,6 +62,7 @@ func (s *Script) Quiesce() {
 		s.ok = false
 	} else {
 		s.h.ppoints = append(s.h.ppoints, s.h.g.Clock.Tick())
+		s.h.checkCountersAll()
 	}
 }
 
